@@ -7,6 +7,9 @@ CONSTANTS
   DirMissing = TRUE
   AnySplit = TRUE
   KeepHist = FALSE
+  Reusers = {}
+  MaxRounds = 1
+  MinBody = 0
 INVARIANT DestOldOrNew
 INVARIANT FailedIsClean
 INVARIANT DoneIsNew
